@@ -10,6 +10,7 @@ import (
 	mocker "github.com/tencent/goom"
 	"github.com/tencent/goom/verifsim/simenv"
 	"github.com/tencent/goom/verifsim/zoo/fn"
+	"github.com/tencent/goom/verifsim/zoo/fn2"
 	"github.com/tencent/goom/verifsim/zoo/meth"
 	"github.com/tencent/goom/verifsim/zoo/thunk"
 )
@@ -40,6 +41,7 @@ type Target struct {
 	Siblings []int // other methods of the same receiver type
 	Mates    []int // generic instantiations sharing this target's shape body (behaviour unspecified while one is mocked)
 	Generic  bool
+	NoOrigin bool   // no origin placeholder available for this target
 	NoRan    bool   // leaf function: no "original ran" counter, the result alone tells
 	Known    string // id of the open known finding that makes this target unusable in ordinary plans
 }
@@ -60,6 +62,50 @@ func simpleKind(t reflect.Type) bool {
 func init() {
 	initFuncs()
 	initMethods()
+	initPkgFuncs()
+}
+
+// localFoo lives in the package that calls goom (this one): Builder.ExportFunc("localFoo") without
+// a package override must resolve to it, and to fn2's function of the same name only when
+// Pkg(fn2.PkgPath) was given for that very lookup.
+//
+//go:noinline
+func localFoo(a int) int {
+	fn.Ran(90)
+	return a*3 + 1
+}
+
+// PkgLocal / PkgOther are the corpus indices of the two localFoo targets.
+var PkgLocal, PkgOther int
+
+func initPkgFuncs() {
+	sig := func(int) int { return 0 }
+	mk := func(rec *thunk.Rec) interface{} {
+		return func(a int) int { return fn.As[int](rec.Enter([]interface{}{a})[0]) }
+	}
+	typ := reflect.TypeOf(sig)
+	local := &Target{Idx: len(Targets), Name: "github.com/tencent/goom/verifsim/worlds/hist.localFoo", Typ: typ, Entry: reflect.ValueOf(localFoo).Pointer(),
+		MkCb: mk, NumHow: 1, Kind: "pkgfunc", NoOrigin: true}
+	local.Call = func(form int, a []interface{}) []interface{} { return []interface{}{localFoo(fn.As[int](a[0]))} }
+	local.Lookup = func(b *mocker.Builder, how int) mocker.ExportedMocker { return b.ExportFunc("localFoo").As(sig) }
+	local.Ref = func(a []interface{}) []interface{} { return []interface{}{fn.As[int](a[0])*3 + 1} }
+	local.RanCount = func() int64 { return fn.RanCount(90) }
+	PkgLocal = local.Idx
+	Targets = append(Targets, local)
+	other := &Target{Idx: len(Targets), Name: fn2.PkgPath + ".localFoo", Typ: typ, MkCb: mk, NumHow: 1, Kind: "pkgfunc", NoOrigin: true}
+	if img, _ := simenv.Shared(); img != nil {
+		other.Entry = img.Lookup(other.Name)
+	}
+	other.Call = func(form int, a []interface{}) []interface{} {
+		return []interface{}{fn2.CallLocalFoo(fn.As[int](a[0]))}
+	}
+	other.Lookup = func(b *mocker.Builder, how int) mocker.ExportedMocker {
+		return b.Pkg(fn2.PkgPath).ExportFunc("localFoo").As(sig)
+	}
+	other.Ref = func(a []interface{}) []interface{} { return []interface{}{fn.As[int](a[0])*5 + 2} }
+	other.RanCount = func() int64 { return fn.RanCount(91) }
+	PkgOther = other.Idx
+	Targets = append(Targets, other)
 }
 
 var shapeOf = map[string]string{"GT[string]": "GT[go.shape.string]", "GT[fn.MyStr]": "GT[go.shape.string]", "GT[int]": "GT[go.shape.int]"}
